@@ -47,7 +47,8 @@ pub fn run(ctx: &mut Ctx) {
         let v = if (i as usize) < vals.len() { vals[i as usize] } else {
             match rng.below(4) { 0 => rng.below(256) as u32, 1 => rng.below(1 << 16) as u32, _ => (rng.next() as u32) & MAX }
         };
-        ex(&mut log, &mut im, &format!("vi.enc {v}"));
+        let enc = ex(&mut log, &mut im, &format!("vi.enc {v}"));
+        for k in 1..=3 { let o = ex(&mut log, &mut im, &format!("vi.encw {v} {k}")); if o != enc { or.fail(format!("VarInt::write through a writer accepting {k} byte(s) per call gives `{o}`, into a Vec `{enc}`"), log.replay_block(), format!("C15:dripw:{k}")); } }
         let mut e = spec_enc(v);
         e.extend(rng.bytes(rng.clone().usize_below(3)));
         let whole = ex(&mut log, &mut im, &format!("vi.dec {}", hexd(&e)));
